@@ -101,7 +101,11 @@ def rate_note_leg(ck):
             raise common.Machinery('run failed: %r' % (r.get('harness_error') or 'hang'))
         replay = {'case': c, 'view': v, 'argv': sc['argv'], 'exit': r['exit'], 'stdout': r['stdout'][-3000:]}
         if 'throttling' not in r['stdout']:
-            raise common.Machinery('the rate check of this leg was expected to produce its note (it did not): %r' % r['stdout'][-400:])
+            # the scenario itself is judged on the JSON view (which carries the notes as data); a text report that has lost the note while
+            # the JSON one has it is the tool's doing, and the comparison below says what else went missing with it
+            if v == 'json':
+                raise common.Machinery('the rate check of this leg was expected to produce its note (it did not): %r' % r['stdout'][-400:])
+            ck.log('rate-note leg: the text report of case %d carries no rate note' % c['id'])
         d = rating.compare_terrapin(c, exp[c['id']], text=report.parse_text(r['stdout'])) if v == 'text' else rating.compare_terrapin(c, exp[c['id']], js=report.parse_json(r['stdout']))
         for sig, desc in d:
             ck.violation('with-rate-note-' + sig, '[the rate check adds its own note] %s' % desc, replay)
